@@ -38,6 +38,8 @@ func safely(prop, input string, fail failFn, f func()) {
 
 const classAlphabet = "kUBEtfn1vso&cA(){}.,:;T?XF\\"
 
+func bstr(b byte) string { return string([]byte{b}) }
+
 func isLetter(b byte) bool { return (b >= 'a' && b <= 'z') || (b >= 'A' && b <= 'Z') }
 
 // runOracle evaluates the property statement itself on implementation values.
@@ -147,7 +149,7 @@ func oracleC08(in string, fail failFn) int {
 // exemptC10 marks positions whose case the property exempts (conservatively).
 func exemptC10(s string) []bool {
 	ex := make([]bool, len(s))
-	low := strings.ToLower(s)
+	low := asciiLower(s)
 	// letter right after a backslash (MySQL \N)
 	for i := 1; i < len(s); i++ {
 		if s[i-1] == '\\' {
@@ -234,6 +236,16 @@ func oracleC10(in string, r *rng, fail failFn) int {
 	return n
 }
 
+func asciiLower(s string) string {
+	b := []byte(s)
+	for i := range b {
+		if b[i] >= 'A' && b[i] <= 'Z' {
+			b[i] |= 0x20
+		}
+	}
+	return string(b)
+}
+
 func sameBools(a, b []bool) bool {
 	if len(a) != len(b) {
 		return false
@@ -250,7 +262,7 @@ func sameBools(a, b []bool) bool {
 
 func oracleC11(in string, r *rng, fail failFn) int {
 	n := 0
-	if !strings.Contains(strings.ToLower(in), "[cdata[") {
+	if !strings.Contains(asciiLower(in), "[cdata[") {
 		x0 := li.IsXSS(in)
 		none := make([]bool, len(in))
 		for mode := 0; mode < 5; mode++ {
@@ -603,7 +615,7 @@ func oracleC18(in string, fail failFn) int {
 		j := findClose(T, d)
 		clen, closeMark, res := len(T), byte(0), 0
 		// real opening quote
-		full := string(d) + T
+		full := bstr(d) + T
 		if j >= 0 {
 			clen, closeMark, res = j, d, 1+j+1
 		} else {
@@ -671,7 +683,7 @@ func oracleC18(in string, fail failFn) int {
 			cl = '>'
 		}
 		for _, pre := range []string{"q'", "Q'", "nq'", "NQ'"} {
-			full := pre + string(d) + T
+			full := pre + bstr(d) + T
 			if len(full) < len(pre)+1 {
 				continue
 			}
@@ -679,9 +691,9 @@ func oracleC18(in string, fail failFn) int {
 			k := bytes.Index([]byte(T), []byte{cl, '\''})
 			start := len(pre) + 1
 			if k < 0 {
-				check("q-quote "+pre+string(d), full, 9, 0, start, len(T), 0, 'q', len(full))
+				check("q-quote "+pre+bstr(d), full, 9, 0, start, len(T), 0, 'q', len(full))
 			} else {
-				check("q-quote "+pre+string(d), full, 9, 0, start, k, 'q', 'q', start+k+2)
+				check("q-quote "+pre+bstr(d), full, 9, 0, start, k, 'q', 'q', start+k+2)
 			}
 		}
 	}
@@ -772,9 +784,9 @@ func encodeByte(r *rng, b byte) string {
 		return fmt.Sprintf("&#x%x", b) // must be followed by a non-hex byte
 	default:
 		if isLetter(b) && r.coin(1, 2) {
-			return string(b ^ 0x20)
+			return bstr(b ^ 0x20)
 		}
-		return string(b)
+		return bstr(b)
 	}
 }
 
